@@ -16,6 +16,7 @@ class Trace(object):
         self.index = None
         self.exc = None        # exception escaping the writer's with-block machinery
         self.extents_from_walk = False
+        self.arrays = {}       # array objects the program hands to the writer more than once
 
 
 def _size(st, sink, name, handles):
@@ -72,7 +73,7 @@ def steps_program(st, program, sink, with_index, tr, name='out.tdms', after_sess
                 rec['ibefore'] = _size(st, sink, iname, streams) if with_index else 0
                 rec['wmark'] = len(st.fs.writes)
                 try:
-                    objs = wgen.make_objects(nptdms, call)
+                    objs = wgen.make_objects(nptdms, call, tr.arrays)
                     writer.write_segment(objs)
                     rec['accepted'] = True
                 except Exception as exc:
@@ -143,6 +144,6 @@ def snapshot(st, sink, name, streams, tr, with_index):
         with open(os.path.join(st.realdir(), name), 'rb') as f:
             tr.data = f.read()
         tr.index = None
-        if with_index:
+        if with_index and os.path.exists(os.path.join(st.realdir(), iname)):
             with open(os.path.join(st.realdir(), iname), 'rb') as f:
                 tr.index = f.read()
